@@ -55,7 +55,7 @@ class Theory:
         self.I = z3.IntSort()
         self.B = z3.BoolSort()
         V, I, B = self.Val, self.I, self.B
-        self.exc_names = list(lattice['exc_sub'].keys()) + ['OtherException']
+        self.exc_names = [n for n in lattice['exc_sub'].keys() if n != 'BaseException'] + ['OtherException']
         self.Exc, exc_consts = z3.EnumSort('Exc', [san(n) for n in self.exc_names])
         self.exc = dict(zip(self.exc_names, exc_consts))
         self.SetA = z3.ArraySort(V, B)
@@ -104,6 +104,7 @@ class Theory:
         self.dflt_map = z3.K(V, self.dflt)
         self.dflt_seq = z3.K(I, self.dflt)
         self._ctr = 0
+        self.fresh_log = None
 
     # ------------------------------------------------------------------
     def fn(self, name, *sig):
@@ -126,7 +127,10 @@ class Theory:
 
     def fresh(self, hint='v', sort=None):
         self._ctr += 1
-        return z3.Const(f'{san(hint)}!{self._ctr}', sort if sort is not None else self.Val)
+        c = z3.Const(f'{san(hint)}!{self._ctr}', sort if sort is not None else self.Val)
+        if self.fresh_log is not None:
+            self.fresh_log.append(c)
+        return c
 
     def isc(self, cname: str):
         self.used_cls.add(cname)
@@ -175,7 +179,7 @@ class Theory:
     def known_classes(self):
         return list(self.lat['sub'].keys())
 
-    def axioms(self):
+    def axioms(self, lean=False):
         """EPR-style universal facts (no function symbols under the quantifier)."""
         V = self.Val
         v = z3.Const('v', V)
@@ -207,6 +211,14 @@ class Theory:
                 if at not in used_attrs:
                     continue
                 ax.append(z3.ForAll([v], z3.Implies(self.isc(a)(v), self.has_attr(at)(v))))
+        # definitional facts of the int embedding and of lengths (also instantiated ground where terms are built)
+        if not lean:
+            # (kept out of the lean axiom set: these two make counter-model construction much harder)
+            iv = z3.Int('iv')
+            ax.append(z3.ForAll([iv], z3.And(self.int_of(self.mk_int(iv)) == iv, self.isc('int')(self.mk_int(iv)),
+                                             z3.Not(self.isc('bool')(self.mk_int(iv))), self.mk_int(iv) != self.NoneV),
+                                patterns=[self.mk_int(iv)]))
+            ax.append(z3.ForAll([v], self.vlen(v) >= 0, patterns=[self.vlen(v)]))
         # singletons and literals
         ax.append(self.isc('NoneType')(self.NoneV))
         ax.append(z3.ForAll([v], z3.Implies(self.isc('NoneType')(v), v == self.NoneV)))
